@@ -297,3 +297,47 @@ def run_inventory(R, rid, root_name, desc, restrict=None):
                                                                "bounds": "index out of bounds panics"}.get(s.kind, ""))})
     R.note("%s: %d functions reachable from %d roots; %d sites" % (root_name, len(reach), len(rs), len(all_sites)))
     return all_sites, reach
+
+
+def run_thorough_release(R, rid, root_name):
+    """thorough tier: second extraction with release semantics (overflow checks and debug assertions off).
+    There the Overflow asserts are gone and the raw integer operators remain; per function the number of raw
+    Add/Sub/Mul/Neg integer operators must equal the number of overflow-assert sites of the dev profile, so the
+    inventory decided above also covers the profile in which an overflow wraps silently."""
+    from . import extract as X
+    from .prog import Prog
+    facts2, info2 = X.extract(profile="release", fresh=True)
+    P2 = Prog(facts2)
+    P = R.prog
+    R.rule(rid + ".release", "release-profile cross-check: per function, raw integer operators (wrapping) = overflow assert sites (panicking)")
+    reach = P.reachable(roots(R, root_name))
+    INT = set(S.INT_RANGES) - {"bool", "char"}
+    mismatches = []
+    n = 0
+    for k in sorted(reach):
+        f = P.fns[k]
+        g = P2.fns.get(k)
+        if f.derived:
+            continue
+        if g is None:
+            mismatches.append((f.path, "missing in release facts"))
+            continue
+        dev = sum(1 for s_ in S.enumerate_sites(f) if s_.kind == "overflow" and s_.detail.split(" ")[0] in ("Add", "Sub", "Mul", "Neg", "Shl", "Shr"))
+        rel = 0
+        for i, st in g.stmts():
+            rv = st["rv"]
+            if rv["k"] == "binop" and rv["op"] in ("Add", "Sub", "Mul", "Shl", "Shr") and rv.get("lty") in INT:
+                if rv["l"]["k"] == "const" and rv["r"]["k"] == "const":
+                    continue
+                rel += 1
+            if rv["k"] == "unop" and rv["op"] == "Neg" and rv.get("oty") in INT:
+                rel += 1
+        devw = sum(1 for i, st in f.stmts() if st["rv"]["k"] == "binop" and st["rv"]["op"] in ("Add", "Sub", "Mul", "Shl", "Shr")
+                   and st["rv"].get("lty") in INT and not (st["rv"]["l"]["k"] == "const" and st["rv"]["r"]["k"] == "const"))
+        n += 1
+        if rel != dev + devw:
+            mismatches.append((f.path, "dev overflow sites %d (+%d unchecked ops) vs release raw operators %d" % (dev, devw, rel)))
+    if mismatches:
+        raise EngineError("release-profile cross-check disagrees with the dev-profile inventory: %s" % mismatches[:5])
+    R.ok(rid + ".release", root_name, "%d functions: raw integer operators in the release MIR = overflow sites of the dev MIR" % n,
+         sample={"release_tree_hash": info2.get("hash")})
